@@ -29,4 +29,15 @@ CHECKS = {
             dict(name="TestC18Random", quick=dict(checks=4000, timeout=300), thorough=dict(checks=20000, shards=16, timeout=1500)),
             dict(name="TestC18Exhaustive", quick=dict(timeout=300), thorough=dict(timeout=1500)),
         ]),
+    "C16": dict(
+        pkg="c16", level="exploration",
+        technique="property-based testing (rapid): generated server messages and byte streams into the colouring function and the three client handlers; differential oracle strip-ANSI(coloured) == plain, crash oracle; native fuzzing in the thorough tier",
+        level_text="Generated messages (every record prefix with 0..9 fields of arbitrary bytes, hidden and empty messages) go through brush.Colorfy and, as chunked streams with every delimiter combination, through the client, mapreduce and health handlers in both colour modes with stdout captured; a panic or any difference between the ANSI-stripped coloured output and the plain output is a violation.",
+        level_note="In-process: the handlers and the stdout logger are the ones the client binaries use; colours are the built-in defaults. The mapreduce result table is covered under C05.",
+        tests=[
+            dict(name="TestC16Colorfy", quick=dict(checks=150000, timeout=300), thorough=dict(checks=1000000, shards=8, timeout=1500)),
+            dict(name="TestC16Streams", quick=dict(checks=15000, timeout=300), thorough=dict(checks=100000, shards=8, timeout=1500)),
+            dict(name="TestC16Aggregate", quick=dict(checks=50000, timeout=300), thorough=dict(checks=400000, shards=4, timeout=1500)),
+            dict(name="FuzzC16", quick=dict(skip=True), thorough=dict(fuzz="240s", timeout=600, procs=16)),
+        ]),
 }
